@@ -253,7 +253,10 @@ pub fn build<Data: GarnishData>(parse_root: usize, parse_tree: Vec<ParseNode>, d
 
         for end_instruction in end_instructions {
             match last_instruction.clone().and_then(|i| data.get_instruction(i)) {
-                Some(instruction) if instruction == end_instruction => {}
+                // only a repeated EndExpression is redundant: the last instruction in the table is not
+                // always the last one executed (a conditional arm joins after it), so e.g. the Tis that
+                // makes `&&` / `||` boolean must not be dropped because the operand's code ends in a Tis
+                Some(instruction) if instruction == end_instruction && end_instruction.0 == Instruction::EndExpression => {}
                 _ => {
                     data.push_instruction(end_instruction.0, end_instruction.1)?;
                     instruction_metadata.push(InstructionMetadata::new(None));
